@@ -21,8 +21,7 @@ Definition tstate := @tstate F.
 
 (* add_token_location (tokinizer/mod.rs:163-183) *)
 Definition collides (infos : list (token_info F)) (st en : N) : bool :=
-  existsb (fun it => (N.leb (ti_start it) st && N.ltb st (ti_end it))
-                     || (N.ltb (ti_start it) en && N.leb en (ti_end it))) infos.
+  existsb (fun it => N.ltb (ti_start it) en && N.ltb st (ti_end it)) infos.
 
 Definition add_token (st : tstate) (b e : N) (ty : option (token F)) (text : str) : tstate * bool :=
   if collides (ts_infos st) b e then (st, false)
@@ -82,8 +81,14 @@ Definition need (o : option (N * N)) : res (N * N) :=
   match o with Some sp => Ok sp | None => Panic SITE_UNWRAP_CAPTURE end.
 
 (* ---------- month (language_tokinizer) ---------- *)
+Fixpoint before_hash (x : str) : str :=
+  match x with
+  | [] => []
+  | c :: r => if N.eqb c 35 then [] else c :: before_hash r
+  end.
+
 Definition month_parser (cfg : config F) (lang : str) (line : str) (st : tstate) : res tstate :=
-  let data := to_lowercase line in
+  let data := before_hash (to_lowercase line) in
   match assoc lang (lx_months lx) with
   | None => Ok st
   | Some months =>
@@ -129,7 +134,7 @@ Definition get_field_type (cfg : config F) (lang : str) (ty name : str) (extra :
   else if str_is ty "GROUP" then
     let group := match extra with Some g => g | None => [] end in
     match lang_groups cfg lang with
-    | None => Panic SITE_LANG_FIELD
+    | None => Ok None
     | Some gs => Ok (option_map (fun items => FGroup name items) (assoc group gs))
     end
   else Ok (option_map (fun types => FTypeGroup types name) (assoc ty (cf_type_group cfg))).
@@ -205,9 +210,9 @@ Definition atom_of (cfg : config F) (c : cre) (data : str) (cp : capture)
   do tok <-
      (if str_is aty "TIME" then
         match parse_u32 d with
-        | None => Panic SITE_ATOM_PARSE
+        | None => Ok None
         | Some secs => if secs <? 86400 then Ok (Some (TTime (dt_of today secs) (get_time_offset cfg)))
-                       else Panic SITE_ATOM_SECONDS
+                       else Ok None
         end
       else if str_is aty "MONEY" then
         match split_on 59%N d [] with
@@ -215,15 +220,15 @@ Definition atom_of (cfg : config F) (c : cre) (data : str) (cp : capture)
           match assoc code (cf_currency cfg) with
           | Some cur => match fparse amount with
                         | Some x => Ok (Some (TMoney x (c_code cur)))
-                        | None => Panic SITE_ATOM_PARSE end
+                        | None => Ok None end
           | None => Ok None
           end
-        | _ => Panic SITE_ATOM_INDEX
+        | _ => Ok None
         end
       else if str_is aty "NUMBER" then
-        match fparse d with Some x => Ok (Some (TNumber x Decimal)) | None => Panic SITE_ATOM_PARSE end
+        match fparse d with Some x => Ok (Some (TNumber x Decimal)) | None => Ok None end
       else if str_is aty "PERCENT" then
-        match fparse d with Some x => Ok (Some (TPercent x)) | None => Panic SITE_ATOM_PARSE end
+        match fparse d with Some x => Ok (Some (TPercent x)) | None => Ok None end
       else if str_is aty "OPERATOR" then
         match d with ch0 :: _ => Ok (Some (TOperator ch0)) | [] => Panic SITE_ATOM_PARSE end
       else Ok None);
@@ -260,7 +265,7 @@ Definition atom_parser (cfg : config F) (line : str) (regexes : list cre) (st : 
 Definition percent_body (cfg : config F) (line : str) : parser_body := fun c cp st =>
   do nsp <- need (cap_name c cp "NUMBER");
   match read_decimal cfg (slice line nsp) with
-  | None => Panic SITE_PERCENT_PARSE
+  | None => Ok st
   | Some x =>
     match cap_get cp 0 with
     | None => Ok st
@@ -363,11 +368,11 @@ Fixpoint radix_value (base : Z) (x : str) (acc : Z) : option Z :=
     end
   end.
 
-(* i64::from_str_radix(..).unwrap() as f64 *)
-Definition from_radix (base : Z) (x : str) : res F :=
+(* i64::from_str_radix(..) as f64; None (literal skipped) when it does not fit an i64 *)
+Definition from_radix (base : Z) (x : str) : option F :=
   match radix_value base x 0 with
-  | Some v => if v <? 2^63 then Ok (fofZ v) else Panic SITE_RADIX
-  | None => Panic SITE_RADIX
+  | Some v => if v <? 2^63 then Some (fofZ v) else None
+  | None => None
   end.
 
 Definition number_body (cfg : config F) (line : str) : parser_body := fun c cp st =>
@@ -379,13 +384,19 @@ Definition number_body (cfg : config F) (line : str) : parser_body := fun c cp s
         Ok (if ok then with_ui st1 (ui_add_opt line (ui_add_opt line (ts_ui st1) nm UNumber) notm USymbol2) else st1)
       end in
   match cap_name c cp "BINARY" with
-  | Some sp => do x <- from_radix 2 (slice line sp); finish st (snd sp) x Binary (cap_name c cp "BINARY_FULL") None
+  | Some sp => match from_radix 2 (slice line sp) with
+               | Some x => finish st (snd sp) x Binary (cap_name c cp "BINARY_FULL") None
+               | None => Ok st end
   | None =>
     match cap_name c cp "HEX" with
-    | Some sp => do x <- from_radix 16 (slice line sp); finish st (snd sp) x Hexadecimal (cap_name c cp "HEX_FULL") None
+    | Some sp => match from_radix 16 (slice line sp) with
+                 | Some x => finish st (snd sp) x Hexadecimal (cap_name c cp "HEX_FULL") None
+                 | None => Ok st end
     | None =>
       match cap_name c cp "OCTAL" with
-      | Some sp => do x <- from_radix 8 (slice line sp); finish st (snd sp) x Octal (cap_name c cp "OCTAL_FULL") None
+      | Some sp => match from_radix 8 (slice line sp) with
+                   | Some x => finish st (snd sp) x Octal (cap_name c cp "OCTAL_FULL") None
+                   | None => Ok st end
       | None =>
         match cap_name c cp "DECIMAL" with
         | Some sp =>
@@ -393,7 +404,9 @@ Definition number_body (cfg : config F) (line : str) : parser_body := fun c cp s
           | None => Ok st
           | Some num =>
             match cap_name c cp "NOTATION" with
-            | Some nsp => finish st (snd sp) (fmul num (notation_mult NOTATION_NUMBER (slice line nsp))) Decimal (Some sp) (Some nsp)
+            | Some nsp =>
+              let mult := notation_mult NOTATION_NUMBER (slice line nsp) in
+              finish st (if feqb mult f1 then snd sp else snd nsp) (fmul num mult) Decimal (Some sp) (Some nsp)
             | None => finish st (snd sp) num Decimal (Some sp) None
             end
           end
@@ -408,10 +421,10 @@ Definition text_body (cfg : config F) (lang : str) (line : str) : parser_body :=
   do tsp <- need (cap_name c cp "TEXT");
   let text := slice line tsp in
   if match trim text with [] => true | _ => false end then Ok st else
-  match lang_constants cfg lang, cap_get cp 0 with
-  | None, _ => Panic SITE_LANG_TEXT
-  | _, None => Ok st
-  | Some consts, Some (b, e) =>
+  match cap_get cp 0 with
+  | None => Ok st
+  | Some (b, e) =>
+    let consts := match lang_constants cfg lang with Some m => m | None => [] end in
     let tz := get_time_offset cfg in
     let ctok := match assoc text consts with
                 | Some CToday => Some (TDate today tz)
@@ -498,15 +511,11 @@ Fixpoint alias_apply (cfg : config F) (aliases : list (cre * str)) (t : token_in
 
 Definition alias_tokinizer (cfg : config F) (lang : str) (st : tstate) : res tstate :=
   do infos1 <- mapM (alias_apply cfg (lx_alias lx)) (ts_infos st);
-  match infos1 with
-  | [] => Ok (with_ui st (ts_ui st))
-  | _ =>
-    match assoc lang (lx_lang_alias lx) with
-    | None => Panic SITE_LANG_ALIAS
-    | Some aliases =>
-      do infos2 <- mapM (alias_apply cfg aliases) infos1;
-      Ok {| ts_infos := infos2; ts_ui := ts_ui st |}
-    end
+  match assoc lang (lx_lang_alias lx) with
+  | None => Ok {| ts_infos := infos1; ts_ui := ts_ui st |}        (* unknown language: no language aliases *)
+  | Some aliases =>
+    do infos2 <- mapM (alias_apply cfg aliases) infos1;
+    Ok {| ts_infos := infos2; ts_ui := ts_ui st |}
   end.
 
 (* Tokinizer::token_infos (tokinizer/mod.rs:92-114): what rule patterns are tokenised with *)
